@@ -8,9 +8,9 @@
 (* `const` (must compile, run and show the written value).                          *)
 EXTENDS Ast, TLC, Json
 
-Decls == {"mod", "mod_typed", "mod_unpack", "fn", "block", "list", "obj", "opt", "class_name", "import_mod", "export_member"}
+Decls == {"mod", "mod_typed", "mod_unpack", "fn", "block", "list", "obj", "objlist", "opt", "class_name", "import_mod", "export_member", "mod_libname"}
 Forms == {"assign", "typed", "add", "sub", "mul", "div", "rem", "unwrap", "modify", "index", "index_add", "field", "field_add",
-          "counter", "unpack"}
+          "counter", "unpack", "paren_field_index_add", "paren_index_field_mul", "import_mod"}
 Contexts == {"same", "block", "nested_fn", "method", "loop_body"}
 
 (* the constness machine *)
@@ -20,14 +20,17 @@ WriteEnabled(isConst) == ~isConst
 IsWrite(decl, form, ctx) ==
     /\ CASE decl \in {"mod", "mod_typed", "mod_unpack", "fn", "block"} -> form \in {"assign", "typed", "add", "sub", "mul", "div", "rem", "modify", "counter"}
          [] decl = "list" -> form \in {"index", "index_add"}
-         [] decl = "obj" -> form \in {"assign", "field", "field_add", "modify"}
+         [] decl = "obj" -> form \in {"assign", "field", "field_add", "modify", "paren_field_index_add"}   \* `(p.ws)[k] += v`
+         [] decl = "objlist" -> form \in {"paren_index_field_mul"}                                       \* `(ps[k]).v *= v`
+         [] decl = "mod_libname" -> form \in {"import_mod"}     \* `import lib` re-binds the name `lib`
          [] decl = "opt" -> form \in {"assign", "unwrap", "modify"}
          [] decl = "class_name" -> form \in {"assign"}
          [] decl = "import_mod" -> form \in {"assign"}
          [] decl = "export_member" -> form \in {"field", "field_add"}
     \* a plain / typed assignment, a loop counter or an unpacking inside a nested function or method declares a new local:
     \* only `modify`, op-assignment and index / field assignment reach the outer binding from there
-    /\ ctx \in {"nested_fn", "method"} => form \in {"modify", "add", "sub", "mul", "div", "rem", "index", "index_add", "field", "field_add"}
+    /\ ctx \in {"nested_fn", "method"} => form \in {"modify", "add", "sub", "mul", "div", "rem", "index", "index_add", "field", "field_add",
+                                                     "paren_field_index_add", "paren_index_field_mul"}
     /\ form = "modify" => ctx \in {"nested_fn", "method"}
     \* a loop whose counter re-uses a name declared in an *enclosing* block is left out: whether the counter then is the
     \* outer variable or a fresh one is not pinned down by the language (the implementation makes it a fresh one)
@@ -35,6 +38,7 @@ IsWrite(decl, form, ctx) ==
     \* (`[x, y] = ..` can never re-use an existing name, const or not: unpacking is not a write form)
     /\ decl \in {"fn", "block"} => ctx \in {"same", "block", "loop_body", "nested_fn"}
     /\ decl \in {"class_name", "import_mod", "export_member"} => ctx \in {"same", "block"}
+    /\ decl = "mod_libname" => ctx \in {"same", "block", "loop_body"}
 
 Triples == {t \in [decl : Decls, form : Forms, ctx : Contexts] : IsWrite(t.decl, t.form, t.ctx)}
 
@@ -45,11 +49,13 @@ Next == UNCHANGED t
 -----------------------------------------------------------------------------
 LetC(n, ty, e, c) == [k |-> "let", n |-> n, ty |-> ty, e |-> e, mod |-> FALSE, const |-> c, export |-> FALSE]
 Unpack(ns, e) == [k |-> "unpack", ns |-> ns, e |-> e]
-PClass == [k |-> "class", n |-> "P", export |-> FALSE, fields |-> <<[n |-> "v", ty |-> "int"]>>,
-           ctor |-> <<[ps |-> <<>>, b |-> <<Assign(Fld(Self, "v"), "=", I(1))>>]>>, methods |-> <<>>]
+PClass == [k |-> "class", n |-> "P", export |-> FALSE, fields |-> <<[n |-> "v", ty |-> "int"], [n |-> "ws", ty |-> "[int...]"]>>,
+           ctor |-> <<[ps |-> <<>>, b |-> <<Assign(Fld(Self, "v"), "=", I(1)), Assign(Fld(Self, "ws"), "=", List(<<I(1), I(2)>>))>>]>>, methods |-> <<>>]
+Paren(e) == [k |-> "paren", e |-> e]
 
 Name == CASE t.decl \in {"mod", "mod_typed", "mod_unpack", "fn", "block"} -> "x" [] t.decl = "list" -> "xs" [] t.decl = "obj" -> "p"
-          [] t.decl = "opt" -> "o" [] t.decl = "class_name" -> "P" [] t.decl \in {"import_mod", "export_member"} -> "lib"
+          [] t.decl = "objlist" -> "ps"
+          [] t.decl = "opt" -> "o" [] t.decl = "class_name" -> "P" [] t.decl \in {"import_mod", "export_member", "mod_libname"} -> "lib"
 
 Declare(c) ==
     CASE t.decl \in {"mod", "fn", "block"} -> <<LetC("x", "", I(5), c)>>
@@ -57,6 +63,8 @@ Declare(c) ==
       [] t.decl = "mod_unpack" -> <<[k |-> "unpack", ns |-> <<"x", "zz">>, e |-> List(<<I(5), I(6)>>), const |-> c]>>   \* `const [x, zz] = [5, 6]`
       [] t.decl = "list" -> <<LetC("xs", "[int...]", List(<<I(1), I(2)>>), c)>>
       [] t.decl = "obj" -> <<LetC("p", "", New("P", <<>>), c)>>
+      [] t.decl = "objlist" -> <<LetC("ps", "[P...]", List(<<New("P", <<>>)>>), c)>>
+      [] t.decl = "mod_libname" -> <<LetC("lib", "", I(5), c)>>
       [] t.decl = "opt" -> <<LetC("o", "int?", I(5), c)>>
       [] OTHER -> <<>>
 
@@ -71,11 +79,17 @@ WriteStmts ==
       [] t.form = "index_add" -> <<Let("k0", I(0)), Assign(Idx(V(Name), V("k0")), "+", I(8))>>
       [] t.form = "field" -> <<Assign(Fld(V(Name), IF t.decl = "export_member" THEN "kk" ELSE "v"), "=", I(9))>>
       [] t.form = "field_add" -> <<Assign(Fld(V(Name), IF t.decl = "export_member" THEN "kk" ELSE "v"), "+", I(8))>>
+      \* (a statement that starts with `(` must be the first of its block: after an expression the parser reads a call)
+      [] t.form = "paren_field_index_add" -> <<Let("k0", I(0)), If(Bin("==", V("k0"), I(0)), <<Assign(Idx(Paren(Fld(V("p"), "ws")), V("k0")), "+", I(8))>>)>>
+      [] t.form = "paren_index_field_mul" -> <<Let("k0", I(0)), If(Bin("==", V("k0"), I(0)), <<Assign(Fld(Paren(Idx(V("ps"), V("k0"))), "v"), "*", I(6))>>)>>
+      [] t.form = "import_mod" -> <<[k |-> "import", form |-> "mod", path |-> "lib", names |-> <<>>]>>
       [] t.form = "counter" -> <<From(I(0), I(3), FALSE, <<>>, Name, <<Print(S("it"))>>)>>
       [] t.form = "unpack" -> <<Unpack(<<Name, "yy">>, List(<<I(7), I(8)>>))>>
 
 Shown == CASE t.decl = "list" -> <<Print(V("xs"))>>
-           [] t.decl = "obj" -> <<Print(Fld(V("p"), "v"))>>
+           [] t.decl = "obj" -> <<Print(Fld(V("p"), "v")), Print(Fld(V("p"), "ws"))>>
+           [] t.decl = "objlist" -> <<Let("k9", I(0)), Let("p9", Idx(V("ps"), V("k9"))), Print(Fld(V("p9"), "v"))>>
+           [] t.decl = "mod_libname" -> <<>>
            [] t.decl = "opt" -> <<Print(Bin("==", V("o"), I(7)))>>
            [] t.decl \in {"class_name", "import_mod"} -> <<>>
            [] t.decl = "export_member" -> <<Print(Fld(V("lib"), "kk"))>>
@@ -93,18 +107,18 @@ InContext(ws) ==
 Core(c) == Declare(c) \o InContext(WriteStmts) \o Shown
 MainBody(c) ==
     <<Print(S("START")), Let("one", I(1))>>
-    \o (IF t.decl \in {"obj", "class_name"} THEN <<PClass>> ELSE <<>>)
+    \o (IF t.decl \in {"obj", "objlist", "class_name"} THEN <<PClass>> ELSE <<>>)
     \o (IF t.decl \in {"import_mod", "export_member"} THEN <<[k |-> "import", form |-> "mod", path |-> "lib", names |-> <<>>]>> ELSE <<>>)
     \o (CASE t.decl = "fn" -> <<Let("f", Fn("f", <<>>, "int", Core(c) \o <<Ret(I(0))>>)), ExprS(Call(V("f"), <<>>))>>
           [] t.decl = "block" -> <<If(Bin("==", V("one"), I(1)), Core(c))>>
           [] OTHER -> Core(c))
     \o <<Print(S("END"))>>
 LibBody(c) == <<[k |-> "let", n |-> "kk", ty |-> "int", e |-> I(1), mod |-> FALSE, const |-> FALSE, export |-> TRUE]>>
-Project(c) == IF t.decl \in {"import_mod", "export_member"}
+Project(c) == IF t.decl \in {"import_mod", "export_member", "mod_libname"}
               THEN [entry |-> 1, mods |-> <<[name |-> "main", body |-> MainBody(c)], [name |-> "lib", body |-> LibBody(c)]>>]
               ELSE [body |-> MainBody(c)]
 (* class names, imported modules and their members have no mutable twin *)
-HasTwin == t.decl \notin {"class_name", "import_mod", "export_member"}
+HasTwin == t.decl \notin {"class_name", "import_mod", "export_member", "mod_libname"}
 
 EmitCase == PrintT("CASE " \o ToJson([t |-> t, const_enabled |-> WriteEnabled(TRUE), twin_enabled |-> WriteEnabled(FALSE),
                                        has_twin |-> HasTwin, prog |-> Project(TRUE), twin |-> Project(FALSE)]))
